@@ -2,7 +2,7 @@
 From Coq Require Import String List ZArith Bool.
 From PV Require Import Xnum Select PyLib Argsort Vars Vars_proofs Task_proofs Init Init_proofs Skeleton Skeleton_proofs.
 From PVGen Require Import GenInit Algos Expected GenHyper GenTask.
-From PVBridge Require Import InitBridge AlgoBridge ProvMain TaskBridge.
+From PVBridge Require Import InitBridge AlgoBridge ProvMain ProvExample TaskBridge.
 
 (* correct_solution corrects against `get_variables()`: the REGENERATED comprehension over the task's CURRENT variables is the model's flat_vars (no cache) *)
 Theorem C01_get_variables_regenerated : forall t, gen_task_get_variables t = flat_vars t.
@@ -34,3 +34,12 @@ Proof. exact raw_site_allows_violation. Qed.
 Print Assumptions C01_init_agent_regenerated.
 Print Assumptions C01_every_position_in_space.
 Print Assumptions C01_raw_site_allows_violation.
+
+(* non-vacuity: a concrete weight carrier, objective, mixed task (continuous + discrete), maximisation, a conforming REGENERATED skeleton that is not a known finding and
+   an operation sequence (a drawn initial solution outside the bounds, a raw candidate with +inf, a copy) meet EVERY hypothesis of the main theorem; three agents are built *)
+Theorem C01_hypotheses_satisfiable :
+  (forall l w, ex_dot (map xneg l) w = xneg (ex_dot l w)) /\ valid_task ex_task /\ valid_flat ex_task /\
+  exists sk, In sk all_skeletons /\ ~ In (sk_name sk) known_prov /\ run_ok unit ex_task sk ex_ops /\
+             length (heap unit (exec_ops unit ex_dot unit ex_fit ex_obj ex_task MAX None ex_ops)) = 3.
+Proof. exact prov_hypotheses_satisfiable. Qed.
+Print Assumptions C01_hypotheses_satisfiable.
